@@ -17,7 +17,9 @@ import numpy as np
 import z3
 
 from lerax import distribution as LD
+from typing import ClassVar
 from lerax.policy import MLPActorCriticPolicy, MLPSACPolicy
+from lerax.policy.q.base_q import AbstractQPolicy
 from lerax.space import Box, Discrete, MultiBinary, MultiDiscrete
 
 from lvc import kit, ir, extract
@@ -180,6 +182,61 @@ def uniform_stub(key, shape=(), dtype=float, minval=0.0, maxval=1.0, **kw):
     return ocall("uniform", sd(tuple(shape), f32), key)
 
 
+class TableQPolicy(AbstractQPolicy):
+    """native replay only: a Q policy whose Q-values are a stored vector (the real epsilon-greedy __call__ is inherited)"""
+    name: ClassVar[str] = "TableQ"
+    action_space: Discrete
+    observation_space: Box
+    epsilon: float
+    q: jax.Array
+
+    def __init__(self, q, epsilon):
+        self.action_space = Discrete(int(q.shape[0]))
+        self.observation_space = Box(-jnp.ones((2,)), jnp.ones((2,)))
+        self.epsilon = epsilon
+        self.q = q
+
+    def q_values(self, state, observation):
+        return state, self.q
+
+    def reset(self, *, key):
+        return None
+
+
+def native_q_replay(eps, use_key, use_mask, q_terms, mask_terms):
+    """R1: the counter-model's Q-values and mask, then a battery (all masks x tie / order patterns), through the real AbstractQPolicy.__call__ on a table Q policy.
+    The exploit branch of epsilon-greedy is forced with uniform := 0.99, the explore branch with uniform := 0.0."""
+    def replay(model):
+        n = len(q_terms)
+        cands = []
+        try:
+            if model is not None:
+                qv = [float(model.eval(ir.zreal(t), model_completion=True).as_fraction()) for t in q_terms]
+                mv = [bool(z3.is_true(model.eval(t, model_completion=True))) for t in mask_terms] if use_mask else [True] * n
+                if any(mv):
+                    cands.append((qv, mv))
+        except Exception:
+            pass
+        pats = [(0.0, 1.0, 2.0), (2.0, 1.0, 0.0), (1.0, 0.0, 1.0), (0.0, 0.0, 0.0), (-1.0, -1.0, 3.0), (5.0, -2.0, -2.0), (0.5, 2.0, 2.0)]
+        masks = [m for m in itertools.product([False, True], repeat=n) if any(m)] if use_mask else [tuple([True] * n)]
+        cands += [(list(p), list(m)) for p in pats for m in masks]
+        obs = jnp.zeros((2,), f32)
+        for qv, mv in cands:
+            pol = TableQPolicy(jnp.asarray(qv, f32), eps)
+            mask = jnp.asarray(mv) if use_mask else None
+            best = max(q for q, m in zip(qv, mv) if m)
+            for u in ((0.99, 0.0) if (use_key and eps > 0) else (None,)):
+                with extract.patched(*([(jr, "uniform", lambda key, shape=(), dtype=float, minval=0.0, maxval=1.0, uu=u, **kw: jnp.asarray(uu, f32))] if u is not None else [])):
+                    _, a = pol(None, obs, action_mask=mask, key=jax.random.key(3) if use_key else None)
+                a = int(a)
+                ok = 0 <= a < n and mv[a] and (u == 0.0 or qv[a] >= best)
+                if not ok:
+                    return dict(reproduced=True, route="R1 (real AbstractQPolicy.__call__ on a table Q policy" + ("" if u is None else f"; jax.random.uniform forced to {u}") + ")",
+                                inputs=dict(q_values=qv, action_mask=mv if use_mask else None, epsilon=eps, key=use_key), observed=dict(action=a, allowed=bool(0 <= a < n and mv[a]), best_allowed_q=best))
+        return dict(reproduced=False, note=f"{len(cands)} (Q, mask) combinations: action always allowed and greedy on the exploit path")
+    return replay
+
+
 def unit_q_policy(S):
     """AbstractQPolicy.__call__ with generic q_values (real epsilon-greedy code): the greedy action is an ALLOWED arg-max of the Q-values;
     without a key or with epsilon <= 0 the greedy action is returned; otherwise action != greedy only if u < epsilon."""
@@ -212,9 +269,10 @@ def unit_q_policy(S):
         a = act.scalar()
         allowed = (lambda j: m.at((j,))) if use_mask else (lambda j: z3.BoolVal(True))
         fin = [z3.And(q.at((j,)) > -ir.INF, q.at((j,)) < ir.INF) for j in range(n)] + ([z3.Or(*[allowed(j) for j in range(n)])] if use_mask else [])
+        rp = native_q_replay(eps, use_key, use_mask, [q.at((j,)) for j in range(n)], [m.at((j,)) for j in range(n)] if use_mask else [])
         greedy_ok = lambda t: z3.Or(*[z3.And(t == j, allowed(j), *[z3.Implies(allowed(i), q.at((j,)) >= q.at((i,))) for i in range(n)]) for j in range(n)])
         if cfg.startswith("no-key") or cfg.startswith("epsilon-zero"):
-            S.prove(f"{cfg}/greedy-and-allowed", ctx, greedy_ok(a), hyps=fin + mode_ax, function=fn,
+            S.prove(f"{cfg}/greedy-and-allowed", ctx, greedy_ok(a), hyps=fin + mode_ax, function=fn, replay=rp,
                     what="deterministic mode: the action is an allowed action with the highest Q-value among the allowed ones (never a masked action)")
         else:
             us = [c for c in ctx.calls if c.name == "uniform"]
@@ -225,7 +283,7 @@ def unit_q_policy(S):
                 expl = cs[0].outputs[0].scalar()
                 epsf = ir.const_float(np.float32(eps))
                 S.prove(f"{cfg}/departs-from-greedy-only-if-u-below-epsilon", ctx, z3.And(z3.Implies(z3.Not(u < ir.zreal(epsf)), greedy_ok(a)), z3.Implies(u < ir.zreal(epsf), a == expl)),
-                        hyps=fin + mode_ax, function=fn, what="action = exploratory sample iff u < epsilon, else the allowed greedy action: the policy departs from greedy with probability at most epsilon (A-RNG)")
+                        hyps=fin + mode_ax, function=fn, replay=rp, what="action = exploratory sample iff u < epsilon, else the allowed greedy action: the policy departs from greedy with probability at most epsilon (A-RNG)")
                 lg = cs[0].operands[0]
                 if use_mask:
                     S.prove(f"{cfg}/exploration-samples-the-masked-law", ctx, sand(*[z3.Implies(z3.Not(m.at((j,))), lg.at((j,)) <= -ir.INF) for j in range(n)]), hyps=fin, function=fn,
